@@ -308,6 +308,7 @@ func (client *client) writeLoop() {
 	defer func() {
 		if re := recover(); re != nil {
 			err = errors.New(fmt.Sprint(re))
+			verifRecovered("write_loop", re)
 		}
 		client.setError(err)
 	}()
@@ -429,6 +430,7 @@ func (client *client) readLoop() {
 	defer func() {
 		if re := recover(); re != nil {
 			err = errors.New(fmt.Sprint(re))
+			verifRecovered("read_loop", re)
 		}
 		client.setError(err)
 		close(client.in)
@@ -1353,6 +1355,7 @@ func (client *client) readHandle() {
 	defer func() {
 		if re := recover(); re != nil {
 			err = errors.New(fmt.Sprint(re))
+			verifRecovered("read_handle", re)
 		}
 		client.setError(err)
 	}()
@@ -1483,6 +1486,7 @@ func (client *client) pollMessageHandler() {
 	defer func() {
 		if re := recover(); re != nil {
 			err = errors.New(fmt.Sprint(re))
+			verifRecovered("poll", re)
 		}
 		client.setError(err)
 	}()
